@@ -522,3 +522,7 @@ mod test {
         assert_eq!(evicted.next(), None);
     }
 }
+
+#[cfg(all(aws_s2n_quic_verif, test))]
+#[path = "/verif/harness/core/sliding_window.rs"]
+mod verif;
